@@ -39,8 +39,27 @@ def lr_based(ctx):
     return True
 
 
+def lock_object_based(ctx):
+    """the hand-over / commit rules follow the writer lock as a std::unique_lock member of the deleter (m_lock)"""
+    recs = [r for r in ctx.fb.records() if r.qname.startswith(COW) and r.qname.endswith("::deleter") and not r.dependent]
+    if not recs:
+        return False
+    for r in recs:
+        fl = r.field("m_lock")
+        if fl is None or not fl["type"].startswith(("std::unique_lock<", "const std::unique_lock<")):
+            return False
+    return True
+
+
 def run(ctx):
     ctx.step(const_rules, ctx)
+    if not lock_object_based(ctx):
+        ctx.unknown("C04: cow_guarded::deleter no longer keeps the writer lock in a std::unique_lock member (m_lock); the "
+                    "span/commit rules follow that lock object and cannot judge another representation of lock ownership")
+        ctx.step(reader, ctx)
+        ctx.step(common.raii_only, ctx, "C04.raii", ["cow_guarded.hpp"], floor=10)
+        ctx.step(common.witnesses, ctx, "C04.witness", ["C04"])
+        return
     if not lr_based(ctx):
         ctx.unknown("C04: cow_guarded::m_data is no longer an lr_guarded<shared_ptr<const T>>; the span/commit/reader rules "
                     "describe that implementation and cannot judge another one")
@@ -189,10 +208,12 @@ def commit(ctx):
         pn = "p:" + f.params[0]["name"]
         la = LockAnalysis(eng, f, entry_state={"this.m_lock": LockVal("this.m_guarded.m_writeMutex", "X", MAYBE)})
         ex = la.block_in.get(f.exit, {}).get("this.m_lock")
-        ok = ex is not None and ex.st == UNOWNED
-        ctx.ob(rid, ok, f.where, "the writer lock is released on every path through the deleter",
-               "" if ok else "m_lock may still be owned when the deleter returns: after handle.reset() the object stays "
-               "locked for as long as the (empty) handle lives", fn=f.label, inst=f.qname)
+        abandoned = [n for n in la.notes if "release()" in n[1]]
+        ok = ex is not None and ex.st == UNOWNED and not abandoned
+        ctx.ob(rid, ok, abandoned[0][0] if abandoned else f.where, "the writer lock is released on every path through the deleter",
+               "" if ok else ("m_lock.release() gives up ownership without unlocking: the writer mutex stays locked for ever"
+               if abandoned else "m_lock may still be owned when the deleter returns: after handle.reset() the object stays "
+               "locked for as long as the (empty) handle lives"), fn=f.label, inst=f.qname)
         mods = {tuple(f.pos_of(st)): st for st in f.stmts.values() if st["k"] == "CXXMemberCallExpr" and
                 st["callee"]["name"] == "modify" and path(f, f.s(st["obj"])) == "this.m_guarded.m_data"}
         unl = {tuple(f.pos_of(st)): st for st in f.stmts.values() if st["k"] == "CXXMemberCallExpr" and
@@ -281,8 +302,11 @@ def commit(ctx):
     for f in fb.functions(rec=DEL, name="cancel"):
         la = LockAnalysis(eng, f, entry_state={"this.m_lock": LockVal("this.m_guarded.m_writeMutex", "X", MAYBE)})
         ex = la.block_in.get(f.exit, {}).get("this.m_lock")
-        ok = ex is not None and ex.st == UNOWNED
-        ctx.ob(rid, ok, f.where, "cancel() releases the writer lock on every path", "", fn=f.label, inst=f.qname)
+        abandoned = [n for n in la.notes if "release()" in n[1]]
+        ok = ex is not None and ex.st == UNOWNED and not abandoned
+        ctx.ob(rid, ok, abandoned[0][0] if abandoned else f.where, "cancel() releases the writer lock on every path",
+               "" if not abandoned else "m_lock.release() gives up ownership without unlocking: the writer mutex stays locked "
+               "for ever and every later writer blocks", fn=f.label, inst=f.qname)
         sets = [st for st in f.stmts.values() if st["k"] == "BinaryOperator" and st["op"] == "=" and
                 path(f, f.children(st)[0]) == "this.m_cancelled"]
         ok = len(sets) == 1 and (unwrap(f, f.children(sets[0])[1]) or {}).get("v") is True and \
